@@ -36,6 +36,7 @@ class Fail(Exception):
 
 
 def _rules(cfg):
+    O.ENCODING[0] = cfg.get("encoding", "utf-8")  # every engine passes through here first
     return lrugen.RULES[cfg.get("default", "domain")], {O.dec(a): lrugen.RULES[n] for a, n in cfg.get("rules", [])}
 
 
@@ -53,7 +54,7 @@ def run_C15(case):
             overwrite = cfg.get("overwrite", False)
             model = Model(default, rules)
             A = O.Sut.__new__(O.Sut)
-            A.backend, A.folder, A.disk, A.encoding, A.traph = "mem", None, None, "utf-8", None
+            A.backend, A.folder, A.disk, A.encoding, A.traph = "mem", None, None, O.ENCODING[0], None
             A.open(default, rules, overwrite=overwrite)
             B = O.Sut.__new__(O.Sut)
             if cfg.get("backend") == "real":
@@ -61,7 +62,7 @@ def run_C15(case):
                 B.backend, B.folder, B.disk = "real", tmp + "/idx", None
             else:
                 B.backend, B.folder, B.disk = "sim", "/idx", SimDisk()
-            B.encoding, B.traph = "utf-8", None
+            B.encoding, B.traph = O.ENCODING[0], None
             if overwrite and cfg.get("used_folder"):
                 # overwrite=True on a folder that already holds an older index
                 B.open(lrugen.RULES["domain"], {})
@@ -380,6 +381,9 @@ def run_C11(case):
                 cbackend = "mem" if cl.get("mem") else backend
                 cdef = cl.get("default") or cfg.get("default", "domain")
                 crules = cl["rules"]
+                keep_registry = crules is None  # clear() given no rules: nothing is flagged in the new trie
+                if keep_registry:
+                    crules = []
                 fcfg = dict(cfg)
                 fcfg["default"] = cdef
                 fcfg["rules"] = crules
@@ -389,13 +393,20 @@ def run_C11(case):
                 tracks.append(v)
                 for i in range(pos):
                     v.apply(ops[i])
-                v.sut.clear(lrugen.RULES[cdef], {O.dec(a): lrugen.RULES[nm] for a, nm in crules})
-                v.model.reset(lrugen.RULES[cdef], {O.dec(a): lrugen.RULES[nm] for a, nm in crules})
+                if keep_registry:
+                    v.sut.clear(lrugen.RULES[cdef], None)
+                    v.model.reset(lrugen.RULES[cdef], {})  # as far as the stores and every answer go: no rule
+                    res.probes["clear_without_rules_argument"] += 1
+                else:
+                    v.sut.clear(lrugen.RULES[cdef], {O.dec(a): lrugen.RULES[nm] for a, nm in crules})
+                    v.model.reset(lrugen.RULES[cdef], {O.dec(a): lrugen.RULES[nm] for a, nm in crules})
                 res.stats["clear"] += 1
                 res.evals["C11.clear_bytes"] += 1
                 if v.digest() != fresh.digest():
                     raise Fail("C11.clear_bytes", "after clear at position %d the stores differ from a fresh index with the same rules: %s vs %s" % (pos, v.digest(), fresh.digest()))
                 for i in range(pos, n):
+                    if keep_registry and ops[i]["op"] in ("remove_rule", "clear", "reopen"):
+                        continue  # the registries differ by design; removal of a never-flagged rule is not comparable
                     of = fresh.apply(ops[i])
                     ov = v.apply(ops[i])
                     res.evals["C11.clear_same_evolution"] += 1
@@ -441,6 +452,6 @@ def gen_C11(rng, tier, seed):
             a = g.anchor()
             if a is not None and a not in [O.dec(x) for x, _ in rules]:
                 rules.append([O.enc(a), rng.choice(["domain", "path1", "path2", "subdomain"])])
-        clears.append({"pos": rng.randint(0, n), "default": rng.choice([None, "domain", "path1", "never"]), "rules": rules, "mem": rng.random() < 0.3})
+        clears.append({"pos": rng.randint(0, n), "default": rng.choice([None, "domain", "path1", "never"]), "rules": rules if rng.random() < 0.7 else None, "mem": rng.random() < 0.3})
     c["clears"] = clears
     return c
